@@ -154,7 +154,9 @@ pub fn gen_pre(rng: &mut Rng, big: bool) -> Pre {
     let max_pairs = if rng.chance(1, 8) { 40 } else { 8 };
     let pairs = gen::gen_pairs(rng, max_pairs, 1 << 20, big);
     let longest = pairs.iter().map(Pair::size).max().unwrap_or(0);
+    let big_skip = big && rng.chance(1, 3);
     let buffer = match rng.below(5) {
+        _ if big_skip => 66_000 + rng.below(140_000).max(longest + 13),
         0 | 1 => longest + 13,
         2 => longest + 13 + rng.below(20),
         3 => 8192.max(longest + 13),
@@ -173,8 +175,9 @@ pub fn gen_pre(rng: &mut Rng, big: bool) -> Pre {
     };
     let cut_classes = classify_cuts(&pairs, &cut_list);
     let mut bytes = Vec::new();
-    let extra_pct = *rng.pick(&[0usize, 0, 15, 40]);
-    let pre = gen::push_preamble(rng, &mut bytes, id, role, flags, &pairs, &cuts, extra_pct, &gen::EXTRAS_PREAMBLE, max_pair_gv);
+    let extra_pct = if big_skip { 50 } else { *rng.pick(&[0usize, 0, 15, 40]) };
+    let extras: &[gen::Extra] = if big_skip { &gen::EXTRAS_BIG } else { &gen::EXTRAS_PREAMBLE };
+    let pre = gen::push_preamble(rng, &mut bytes, id, role, flags, &pairs, &cuts, extra_pct, extras, max_pair_gv);
     let end = bytes.len();
     // opaque trailing data: never interpreted by the request parser
     let trailing = rng.rbytes(300);
@@ -213,7 +216,16 @@ pub fn check_pre(c: &mut Case, pre: &Pre, conns: usize, chunk: &mut Chunking) ->
         );
         false
     };
-    let run = sd::drive_request(request::Parser::new(&cfg), &pre.bytes, 0, pre.bytes.len(), chunk, &mut c.rng, false);
+    let mut run = sd::drive_request(request::Parser::new(&cfg), &pre.bytes, 0, pre.bytes.len(), chunk, &mut c.rng, false);
+    let fed_at_done = run.fed;
+    if run.done && c.rng.chance(1, 3) {
+        // a driver that keeps draining the socket after `done`: the bytes join the leftover
+        match sd::feed_after_done(&mut run, &pre.bytes, pre.bytes.len(), &mut c.rng, 3) {
+            Ok(n) if n > 0 => c.l.count("fed_after_done"),
+            Ok(_) => {}
+            Err(m) => return fail(c, "call-after-done-changes-state", m, chunk),
+        }
+    }
     c.l.add("parse_calls", run.calls);
     c.l.add("exact_buffer_fills", run.exact_fills);
     if let Some((s, m)) = run.problems.first() {
@@ -226,8 +238,8 @@ pub fn check_pre(c: &mut Case, pre: &Pre, conns: usize, chunk: &mut Chunking) ->
     // (an early `done` caused by a fatal error is reported as that error)
     let early_or_late = if run.fed_before_done >= info.end_off {
         Some(("done-late", format!("preamble ends at {}, {} bytes had been fed before the call that reported done", info.end_off, run.fed_before_done)))
-    } else if run.fed < info.end_off {
-        Some(("done-early", format!("done reported after {} bytes, preamble ends at {}", run.fed, info.end_off)))
+    } else if fed_at_done < info.end_off {
+        Some(("done-early", format!("done reported after {fed_at_done} bytes, preamble ends at {}", info.end_off)))
     } else {
         None
     };
@@ -361,7 +373,7 @@ pub fn run(ctx: &Ctx, evidence: Option<&PathBuf>) -> i32 {
     ctx.run_fixed("single-cut-directed", if ctx.miri() { 0 } else { ctx.dn(20) }, single_cut_sweep);
     let n = ctx.size3(60_000, 6_000_000, 8);
     ctx.run_cases("preambles", n, |c| {
-        let big = ctx.scale == Scale::Full && c.rng.chance(1, 40);
+        let big = ctx.scale == Scale::Full && c.rng.chance(1, 25);
         run_case(c, big, 2);
     });
     ctx.run_cases("single-cut", ctx.size3(300, 30_000, 1), single_cut_sweep);
